@@ -98,6 +98,14 @@ def _explicit_negation(c):
     return c.args[1]
   if c.op == 'call' and c.args[0].op == 'ext' and c.args[0].args[0] in _NEG_EXT and len(c.args[1]) == 1 and not c.args[2]:
     return c.args[1][0]
+  # a strict ordering test is the negation of the non-strict one the other way round (the normal form strip_negation uses)
+  if c.op == 'cmp' and len(c.args) == 3 and c.args[0] in ('<', '>'):
+    op, a, b = c.args
+    return T('cmp', '>=', a, b) if op == '<' else T('cmp', '>=', b, a)
+  if c.op == 'call' and c.args[0].op == 'ext' and c.args[0].args[0] in ('jax.numpy.less', 'jax.numpy.greater', 'numpy.less', 'numpy.greater') and \
+      len(c.args[1]) == 2 and not c.args[2]:
+    a, b = c.args[1]
+    return T('cmp', '>=', a, b) if c.args[0].args[0].endswith('less') else T('cmp', '>=', b, a)
   return None
 
 
